@@ -276,6 +276,8 @@ def quic_conn(draw, max_steps=12, zero_cid=True, early=True, retry=True, offered
     spec["token_len"] = draw(st.sampled_from([0, 0, 1, 24, 63, 64, 65, 80, 300]))      # 64 is where the token-length varint grows to 2 bytes
     if draw(st.booleans()):
         spec["split_chunk"] = draw(st.sampled_from([61, 97, 128]))       # fixed cut offsets, shared by all connections of a capture
+    if spec.get("early"):
+        spec["early_extra"] = draw(st.sampled_from([0, 0, 1, 1, 3, 6, 9, 15]))      # other frames in the 0-RTT packets (NEW_CONNECTION_ID, MAX_DATA, PING, PATH_CHALLENGE)
     spec["steps"] = draw(quic_steps(max_steps, key_updates=key_updates, cids=cids, dups=dups))
     spec["ep"] = draw(ep if ep is not None else endpoints())
     return spec
